@@ -5,8 +5,8 @@
   Payloads are `Nat`s there; the decoder goroutine, the two hand-off channels and the read adapters
   move them around and never look at them.  As a theorem: for every relabelling `g : Nat → Nat` of
   the payloads, `step` commutes with the map `mapState g` that applies `g` to every payload a state
-  holds (`inp`, `consumed`, the member(s) the decoder is handing over, and the ghost logs `gotReq`,
-  `gotRes`, `lostReq`, `lostRes`).  No action of the model carries a payload, so actions are not
+  holds (`inp`, `consumed`, the member(s) the decoder is handing over, the envelope variable `carry`,
+  and the ghost logs `gotReq`, `gotRes`, `lostReq`, `lostRes`).  No action of the model carries a payload, so actions are not
   mapped.  Consequences: a schedule is enabled for `inp` iff it is enabled for the relabelled `inp`,
   the states reached are `mapState g`-related, everything a reader observes that is not a payload
   (errors, order, counts, control state) is equal, and the payloads observed are the `g`-images.
@@ -39,7 +39,7 @@ def mapInp (g : Payload → Payload) (l : List (Option Envelope)) : List (Option
 def mapState (g : Payload → Payload) (s : State) : State :=
   { s with inp := mapInp g s.inp, consumed := mapInp g s.consumed, dec := s.dec.map g,
            gotReq := s.gotReq.map g, gotRes := s.gotRes.map g,
-           lostReq := s.lostReq.map g, lostRes := s.lostRes.map g }
+           lostReq := s.lostReq.map g, lostRes := s.lostRes.map g, carry := s.carry.map g }
 
 /-- everything in a state that is not a payload: control state of the three goroutines, the
     error variable, the channel, the errors the readers got, and *how many* values they got -/
@@ -86,6 +86,18 @@ theorem afterDecode_map (sk : Skeleton) (env : Envelope) :
   cases sk.stDecoderHandsRequests <;> cases sk.stDecoderHandsResponses <;>
     cases rq <;> cases rs <;> rfl
 
+theorem over_map (env old : Envelope) : (env.map g).over (old.map g) = (env.over old).map g := by
+  obtain ⟨rq, rs⟩ := env
+  obtain ⟨oq, os⟩ := old
+  cases rq <;> cases rs <;> cases oq <;> cases os <;> rfl
+
+theorem decoded_map (sk : Skeleton) (carry env : Envelope) :
+    decoded sk (carry.map g) (env.map g) = (decoded sk carry env).map g := by
+  simp only [decoded]
+  cases sk.stMsgFreshPerIteration with
+  | true => rfl
+  | false => exact over_map g env carry
+
 theorem closeDone_map (s : State) : closeDone (mapState g s) = mapState g (closeDone s) := by
   have e : (mapState g s).decodeDone = s.decodeDone := rfl
   unfold closeDone
@@ -93,6 +105,12 @@ theorem closeDone_map (s : State) : closeDone (mapState g s) = mapState g (close
   by_cases h : s.decodeDone = true
   · rw [if_pos h, if_pos h]; rfl
   · rw [if_neg h, if_neg h]; rfl
+
+theorem leave_map (sk : Skeleton) (s : State) : leave sk (mapState g s) = mapState g (leave sk s) := by
+  simp only [leave]
+  cases sk.stDoneClosedOncePerExit with
+  | true => rfl
+  | false => exact closeDone_map g s
 
 theorem abortWith_map (signal : Bool) (s : State) :
     abortWith signal (mapState g s) = mapState g (abortWith signal s) := by
@@ -128,10 +146,11 @@ theorem step_map (sk : Skeleton) (s : State) (a : Act) :
         cases o with
         | some env =>
           have : (mapState g s).inp = some (env.map g) :: mapInp g rest := by simp [mapState, mapInp, hi]
-          simp only [this, Option.map_some]
+          have hcarry : (mapState g s).carry = s.carry.map g := rfl
+          simp only [this, Option.map_some, hcarry, decoded_map, afterDecode_map]
           congr 1
-          simp only [mapState, afterDecode_map, mapInp_append]
-          rfl
+          simp only [mapState, mapInp_append]
+          cases sk.stMsgFreshPerIteration <;> rfl
         | none =>
           have : (mapState g s).inp = none :: mapInp g rest := by simp [mapState, mapInp, hi]
           simp only [this]
@@ -167,15 +186,21 @@ theorem step_map (sk : Skeleton) (s : State) (a : Act) :
         | true =>
           simp only [if_true, Option.map_some]
           congr 1
-          rw [← closeDone_map]
-          congr 1
-          simp only [mapState, hd]
-          cases sk.stDecoderExitsOnErr <;> rfl
+          have e5 : ∀ d : Dec, mapState g (closeDone { s with dec := d }) =
+              closeDone { mapState g s with dec := d.map g } := by
+            intro d; rw [← closeDone_map]; rfl
+          cases sk.stDecoderExitsOnErr with
+          | true => simp only [if_true]; rw [← leave_map]; exact congrArg _ (e5 .done)
+          | false => simp only [Bool.false_eq_true, if_false]; exact e5 .reading
         | false =>
           simp only [Bool.false_eq_true, if_false, Option.map_some]
           congr 1
-          simp only [mapState, hd]
-          cases sk.stDecoderExitsOnErr <;> rfl
+          have e5 : ∀ d : Dec, mapState g { s with dec := d, decodeErr := some (.decode k) } =
+              ({ mapState g s with dec := d.map g, decodeErr := some (.decode k) } : State) := by
+            intro d; rfl
+          cases sk.stDecoderExitsOnErr with
+          | true => simp only [if_true]; rw [← leave_map]; exact congrArg _ (e5 .done)
+          | false => simp only [Bool.false_eq_true, if_false]; exact e5 .reading
       | _ => rfl
     · rw [if_neg hc, if_neg hc]; rfl
   | handReq =>
@@ -226,15 +251,15 @@ theorem step_map (sk : Skeleton) (s : State) (a : Act) :
       | handReq p next =>
         simp only [Dec.map, Option.map_some]
         congr 1
-        rw [← abortWith_map]
-        congr 1
+        rw [← leave_map, ← abortWith_map]
+        congr 2
         simp only [mapState, List.map_cons, List.map_nil]
         cases next <;> rfl
       | handRes q =>
         simp only [Dec.map, Option.map_some]
         congr 1
-        rw [← abortWith_map]
-        congr 1
+        rw [← leave_map, ← abortWith_map]
+        congr 2
       | _ => rfl
     · rw [if_neg hc, if_neg hc]; rfl
   | readDoneReq =>
